@@ -145,6 +145,7 @@ func c33Uninstall() {
 }
 
 const c33Decls = `import "sync"
+import "runtime"
 var wg sync.WaitGroup
 var mu sync.Mutex
 var res [4096]int
@@ -201,6 +202,7 @@ func spawnNamed(n int) {
 		go worker(i)
 		{
 			a := i
+			runtime.Gosched() // let the new goroutine start while this block's frame is live
 			b := a + 1
 			sink += b - a
 			{
